@@ -49,6 +49,13 @@ def build_harness(race=False):
     shutil.copyfile(os.path.join(REPO, "go.sum"), gosum)
     out = os.path.join(BUILD, key)
     cmd = ["go", "build", "-tags", "verif", "-o", out]
+    if os.path.realpath(REPO) != "/repo":
+        # VERIF_REPO=<worktree>: same harness, alternative go.mod whose replace points at that tree
+        alt = os.path.join(BUILD, "alt.mod")
+        with open(alt, "w") as fh:
+            fh.write(open(os.path.join(HARNESS, "go.mod")).read().replace("=> /repo", "=> " + os.path.realpath(REPO)))
+        shutil.copyfile(gosum, os.path.join(BUILD, "alt.sum"))
+        cmd.append("-modfile=" + alt)
     if race:
         cmd.append("-race")
     cmd.append("./cmd/vh")
